@@ -499,6 +499,7 @@ class World(object):
                           "headers": [[a, b] for a, b in hd], "rest": len(req['rest'])})
                 key = [v for (n, v) in hd if n == 'sec-websocket-key']
                 r['key'] = key[0] if key else ''
+                r['hnames'] = [n for (n, v) in hd]
                 # data-level facts about the request, established by the harness (base64, token comparison)
                 try:
                     r['keylen'] = len(base64.b64decode(r['key'], validate=True)) if len(key) == 1 else -1
